@@ -1050,7 +1050,8 @@ func (st *spState) fresh() *saml2.SAMLServiceProvider {
 	return sp
 }
 
-var signingOps = map[string]bool{"authn-doc": true, "authn-str": true, "logout-req": true, "logout-resp": true, "auth-url": true, "auth-url-redirect": true, "logout-url": true, "auth-post": true, "sign-el": true}
+var signingOps = map[string]bool{"authn-doc": true, "authn-str": true, "logout-req": true, "logout-resp": true, "auth-url": true, "auth-url-redirect": true, "logout-url": true, "auth-post": true, "sign-el": true,
+	"shared-auth-url": true, "shared-logout-url": true} // the redirect builders sign the query through the (lazily created, kept) signing context
 var keyFields = map[string]bool{"encField": true, "encSetter": true, "sigField": true, "sigSetter": true, "signAlg": true, "signC14N": true}
 
 // c17EncryptedInputs lists the pool entries that carry an EncryptedAssertion.
